@@ -6,6 +6,7 @@ Lean: Model/Snd.lean (term language, denotation, operational semantics of the se
       when_all counter), theorems in Props/C03.lean.
 Tie:  E0 - harness/e0/snd.cpp builds runtime pipelines from random terms on the real adaptors
            (every stage erased as unique_any_sender), driver model `snd` compares line by line;
+           pool cases run schedule/continues_on/transfer_just on a real thread_pool_scheduler;
       E1 - harness/e1/split.cpp runs the shared-state adaptors with 2-4 threads under the baton,
            driver model `shared` replays the hook-event log through the Lean acceptor.
 """
@@ -24,8 +25,8 @@ def ints(rng, lo=0, hi=3):
     return ':'.join(str(rng.below(15) - 5) for _ in range(n))
 
 
-def gen_fn(rng):
-    f = rng.weighted(FN_W)
+def gen_fn(rng, mayfail=True):
+    f = rng.weighted(FN_W if mayfail else [w for w in FN_W if w[0] not in ('thr', 'throdd')])
     if f == 'add':
         return f'add:{rng.below(9) - 3}'
     if f in ('thr', 'throdd'):
@@ -36,13 +37,38 @@ def gen_fn(rng):
     return f
 
 
-def gen_sch(rng):
-    k = rng.weighted([('v', 5), ('e', 2), ('s', 2)])
+class Ctx:
+    """inlet: inside a let_* body (arg() is bound); pool: the term may use the real pool scheduler
+    `p`, and - because completions of when_all's predecessors then race - at most one predecessor
+    of every when_all / when_all_vector may complete without a value (so that the denotation does
+    not depend on the completion order); mayfail: this subterm may contain failing constructs."""
+
+    def __init__(self, inlet=False, pool=False, mayfail=True):
+        self.inlet, self.pool, self.mayfail = inlet, pool, mayfail
+
+    def let(self):
+        return Ctx(True, self.pool, self.mayfail)
+
+    def nofail(self):
+        return Ctx(self.inlet, self.pool, False)
+
+
+def gen_sch(rng, cx=None):
+    cx = cx or Ctx()
+    w = [('v', 5)]
+    if cx.mayfail:
+        w += [('e', 2), ('s', 2)]
+    if cx.pool:
+        w += [('p', 8)]
+    k = rng.weighted(w)
     return f'e:{10 + rng.below(9)}' if k == 'e' else k
 
 
-def gen_leaf(rng, inlet):
-    k = rng.weighted([('just', 6), ('err', 2), ('stop', 2), ('arg', 5 if inlet else 1), ('tj', 1)])
+def gen_leaf(rng, cx):
+    w = [('just', 6), ('arg', 5 if cx.inlet else 1), ('tj', 1 + (2 if cx.pool else 0)), ('sd', 1 + (1 if cx.pool else 0))]
+    if cx.mayfail:
+        w += [('err', 2), ('stop', 2)]
+    k = rng.weighted(w)
     if k == 'just':
         return f'just({ints(rng)})'
     if k == 'err':
@@ -51,7 +77,9 @@ def gen_leaf(rng, inlet):
         return 'stop()'
     if k == 'arg':
         return 'arg()'
-    return f'tj({gen_sch(rng)},{ints(rng)})'
+    if k == 'sd':
+        return f'sd({gen_sch(rng, cx)})'
+    return f'tj({gen_sch(rng, cx)},{ints(rng)})'
 
 
 def split_budget(rng, budget, k):
@@ -61,38 +89,46 @@ def split_budget(rng, budget, k):
     return parts
 
 
-def gen_term(rng, budget, inlet=False):
+def gen_term(rng, budget, cx=None):
     """random term with about `budget` nodes"""
+    cx = cx or Ctx()
     if budget <= 1:
-        return gen_leaf(rng, inlet)
-    op = rng.weighted([('then', 6), ('lv', 4), ('le', 4), ('dv', 1), ('un', 1), ('co', 3), ('wa', 4), ('wv', 4),
-                       ('sp', 3), ('es', 3), ('st', 3)])
+        return gen_leaf(rng, cx)
+    op = rng.weighted([('then', 6), ('lv', 4), ('le', 4), ('dv', 1), ('un', 1), ('co', 3 + (4 if cx.pool else 0)), ('wa', 4), ('wv', 4),
+                       ('sp', 3), ('es', 3), ('st', 3), ('bulk', 3), ('rs', 2), ('dos', 3)])
     b = budget - 1
     if op == 'then':
-        return f'then({gen_fn(rng)},{gen_term(rng, b, inlet)})'
+        return f'then({gen_fn(rng, cx.mayfail)},{gen_term(rng, b, cx)})'
     if op in ('lv', 'le'):
         if b < 2:
-            return gen_leaf(rng, inlet)
+            return gen_leaf(rng, cx)
         p1, p2 = split_budget(rng, b, 2)
-        return f'{op}({gen_fn(rng)},{gen_term(rng, p1, inlet)},{gen_term(rng, p2, True)})'
-    if op in ('dv', 'un', 'sp', 'es'):
-        return f'{op}({gen_term(rng, b, inlet)})'
+        return f'{op}({gen_fn(rng, cx.mayfail)},{gen_term(rng, p1, cx)},{gen_term(rng, p2, cx.let())})'
+    if op in ('dv', 'un', 'sp', 'es', 'rs', 'dos'):
+        return f'{op}({gen_term(rng, b, cx)})'
+    if op == 'bulk':
+        return f'bulk({rng.below(4)},{gen_fn(rng, cx.mayfail)},{gen_term(rng, b, cx)})'
     if op == 'co':
-        return f'co({gen_sch(rng)},{gen_term(rng, b, inlet)})'
+        return f'co({gen_sch(rng, cx)},{gen_term(rng, b, cx)})'
     if op == 'st':
-        return f'st({rng.below(2)},{gen_term(rng, b, inlet)})'
+        return f'st({rng.below(2)},{gen_term(rng, b, cx)})'
     if op == 'wa':
         k = min(b, 1 + rng.below(4))
-        return 'wa(' + ','.join(gen_term(rng, p, inlet) for p in split_budget(rng, b, k)) + ')'
-    k = min(b, rng.below(6))
-    if k == 0:
-        return 'wv()'
-    return 'wv(' + ','.join(gen_term(rng, p, inlet) for p in split_budget(rng, b, k)) + ')'
+    else:
+        k = min(b, rng.below(6))
+        if k == 0:
+            return 'wv()'
+    parts = split_budget(rng, b, k)
+    lucky = rng.below(k)     # pool terms: the one predecessor that may complete without a value
+    kids = [gen_term(rng, pt, cx if (not cx.pool or i == lucky) else cx.nofail()) for i, pt in enumerate(parts)]
+    return f'{op}(' + ','.join(kids) + ')'
 
 
-def gen_e0(rng, cid):
+def gen_e0(rng, cid, pool=False):
     budget = rng.weighted([(2, 2), (3, 3), (4, 3), (6, 4), (8, 3), (10, 2), (12, 2)])
-    term = gen_term(rng, budget)
+    term = gen_term(rng, budget, Ctx(pool=pool))
+    if pool and '(p' not in term:
+        term = f'co(p,{term})'
     consumer = rng.weighted([('recv', 8), ('detached', 1), ('sync', 1)])
     return f'case {cid} term={term} consumer={consumer}\nendcase'
 
@@ -169,11 +205,16 @@ def main():
     builds = {}
     blog = plog
     if ok_p:
-        for name, src, extra in [('e0_snd', 'e0/snd.cpp', '-O1'), ('e1_split', 'e1/split.cpp', '-O1')] + \
-                ([('e0_snd_asan', 'e0/snd.cpp', '-O1 -g -fsanitize=address -fno-omit-frame-pointer')] if tr == 'thorough' else []):
-            if not os.path.exists(os.path.join(HERE, 'harness', src)):
-                continue
-            ok_h, hbin, hlog = compile_harness(name, src, 'hooks', extra)
+        # the ASan variant (touch-after-release of an operation state is a heap-use-after-free: the
+        # terminal receiver deletes the operation state inside its completion call) runs in both
+        # tiers; the three compiles run side by side
+        todo = [('e0_snd', 'e0/snd.cpp', '-O1'), ('e1_split', 'e1/split.cpp', '-O1'),
+                ('e0_snd_asan', 'e0/snd.cpp', '-O1 -g -fsanitize=address -fno-omit-frame-pointer')]
+        todo = [t for t in todo if os.path.exists(os.path.join(HERE, 'harness', t[1]))]
+        from concurrent.futures import ThreadPoolExecutor
+        with ThreadPoolExecutor(max_workers=3) as tp:
+            done = list(tp.map(lambda t: (t[0],) + tuple(compile_harness(t[0], t[1], 'hooks', t[2])), todo))
+        for name, ok_h, hbin, hlog in done:
             if not ok_h:
                 ok_p = False
                 blog = hlog
@@ -204,9 +245,12 @@ def main():
             txt = open(c).read().strip()
             (e0_cases if ' term=' in txt else e1_cases).append(txt)
         n0 = 30000 if tr == 'thorough' else 2000
+        n0p = 5000 if tr == 'thorough' else 400
         n1 = 10000 if tr == 'thorough' else 600
         for i in range(n0):
             e0_cases.append(gen_e0(rng, f't{base_seed}n{i}'))
+        for i in range(n0p):
+            e0_cases.append(gen_e0(rng, f'p{base_seed}n{i}', pool=True))
         if 'e1_split' in builds:
             for i in range(n1):
                 e1_cases.append(gen_e1(rng, f's{base_seed}n{i}'))
@@ -214,14 +258,15 @@ def main():
     def run_all(e0c, e1c, tag):
         out = []
         if e0c:
-            res = run_e1(builds['e0_snd'], 'snd', e0c, jobs=8, tag=PROP + tag + 'e0')
-            out += [(classify_e0(r), c, r, 'E0') for c, r in zip(e0c, res)]
+            res = run_e1(builds['e0_snd'], 'snd', e0c, jobs=6, tag=PROP + tag + 'e0')
+            out += [(classify_e0(r), c, r, 'E0-pool' if '(p' in c.split('\n')[0] else 'E0') for c, r in zip(e0c, res)]
             if 'e0_snd_asan' in builds:
-                sub = e0c[:4000]
-                res = run_e1(builds['e0_snd_asan'], 'snd', sub, jobs=8, tag=PROP + tag + 'asan')
+                # not the pool cases: exceptions thrown on pika's task stacks confuse ASan (false reports)
+                sub = [c for c in e0c if '(p' not in c.split('\n')[0]][:4000 if tr == 'thorough' else 600]
+                res = run_e1(builds['e0_snd_asan'], 'snd', sub, jobs=6, tag=PROP + tag + 'asan')
                 out += [(classify_e0(r), c, r, 'E0-asan') for c, r in zip(sub, res)]
         if e1c and 'e1_split' in builds:
-            res = run_e1(builds['e1_split'], 'shared', e1c, jobs=8, tag=PROP + tag + 'e1')
+            res = run_e1(builds['e1_split'], 'shared', e1c, jobs=6, tag=PROP + tag + 'e1')
             out += [(classify_e1(r), c, r, 'E1') for c, r in zip(e1c, res)]
         return out
 
@@ -234,7 +279,7 @@ def main():
     bad = [x for x in results if x[0] != 'pass']
     extra_run = 0
     if (not proof_ok or kinds['tie'] > 0) and kinds['monitor'] == 0 and not replay:
-        xe0 = [gen_e0(rng, f'x{base_seed}n{i}') for i in range(6000)]
+        xe0 = [gen_e0(rng, f'x{base_seed}n{i}', pool=(i % 4 == 3)) for i in range(6000)]
         xe1 = [gen_e1(rng, f'y{base_seed}n{i}') for i in range(3000)] if 'e1_split' in builds else []
         xres = run_all(xe0, xe1, 'x')
         extra_run = len(xres)
@@ -320,14 +365,15 @@ def main():
         ],
         'evaluations': len(results) + extra_run,
         'distinct_nontrivial': len(nontriv),
-        'rule': 'E0: random pipeline terms (2-12 nodes over just/err/stop/arg/transfer_just/then/let_value/let_error/drop_value/unpack/continues_on/when_all/when_all_vector/split/ensure_started/split_tuple, all three channels at leaves and schedulers, throwing callables, consumers terminal receiver / start_detached / sync_wait); non-trivial = at least 3 operators, distinct = distinct (term, consumer). E1: split / ensure_started / split_tuple shared state and when_all counter with 2-5 threads under PRNG schedules; non-trivial = a continuation was stored or the counter was decremented concurrently',
+        'rule': 'E0: random pipeline terms (2-12 nodes over just/err/stop/arg/schedule/transfer_just/then/let_value/let_error/drop_value/unpack/continues_on/bulk(generic)/require_started/drop_operation_state/when_all/when_all_vector/split/ensure_started/split_tuple, all three channels at leaves and inline schedulers, throwing callables, consumers terminal receiver / start_detached / sync_wait); E0-pool: the same terms with schedule/continues_on/transfer_just on pika thread_pool_scheduler of a running 2-worker runtime (completion on worker threads, ensure_started racing with the consumer, when_all predecessors racing; at most one non-value predecessor per when_all so that the denotation is order independent), results compared modulo placement after the runtime is idle; non-trivial = at least 3 operators, distinct = distinct (term, consumer). E1: split / ensure_started / split_tuple shared state and when_all counter with 2-5 threads under PRNG schedules; non-trivial = a continuation was stored or the counter was decremented concurrently',
         'samples': samples,
         'traces_validated_against_impl': kinds['pass'],
         'disagreements_checked': kinds['tie'],
         'explanation': f"theorems: {[t[0] for t in audit['theorems']]}; correspondence per engine: {per_engine}; corpus cases {len(corpus)}; extra search cases {extra_run}; distribution {dist}",
     }
     write_evidence(PROP, tr, base_seed, cov, time.time() - t0, len(violations), assumptions=[
-        'all leaves complete inline in the E0 tier (sequential semantics); concurrency of completion vs. consumption is covered by the E1 tier for the shared-state adaptors only',
+        'the Lean term semantics is sequential (completion inline in start); in the E0-pool cases the real completion happens on worker threads and only the observable outcome (signal, consumer result, count, ledger) is compared with it; exhaustive interleavings are covered by the E1 tier for the shared-state adaptors and when_all only',
+        'every stage of an E0 pipeline is type-erased (unique_any_sender passes values by value), so lifetime errors of references into a destroyed predecessor operation state (drop_operation_state) cannot show in E0; the destruction itself and touch-after-destruction of operation states is modelled (freed/uaf) and proved, and checked on the implementation by ASan + the payload ledger',
         'sync_wait of a stopped pipeline and start_detached of a failing pipeline terminate the process by design; modelled as termination, not as a violation',
         'non-stdexec build: sends_done is false for every pika adaptor and for any_sender, so when_all_vector / split_tuple over such senders reach PIKA_UNREACHABLE on stopped; the harness puts a glue sender with sends_done=true below them (see notes/C03.md)',
     ])
